@@ -23,7 +23,7 @@ from vf.util import Rng, split_seeds, spec_seeds, replay_spec, short
 ID = 'C01'
 LEVEL = 'fault_enumeration'
 TECHNIQUE = 'differential runtime monitor (bare vs agent) + escape monitor + line-level fault enumeration inside the trace handler via sys.monitoring hand-off'
-RULE = ('differential: generated programs (40 shapes incl. coroutines driven by hand and by an asyncio event loop - tasks, cancellation, async generators / with -, threads - also lock-step and a thread census -, generators, raising dunders, a seeded random generator, the traceback of a caught exception, a kept locals() dictionary, finalizers) x generated tracepoint '
+RULE = ('differential: generated programs (41 shapes incl. coroutines driven by hand and by an asyncio event loop - tasks, cancellation, async generators / with -, threads - also lock-step and a thread census -, generators, raising dunders, a seeded random generator, the traceback of a caught exception, a kept locals() dictionary, finalizers) x generated tracepoint '
         'sets (all action kinds, watches / conditions / log templates that fail or are malformed, expressions that '
         'touch values whose str()/attribute access raise incl. SystemExit, raising plugins, failing push); fault '
         'enumeration: for seeded (frame, tracepoint-set) pairs every distinct (file, line) of deep/ code executed in a '
